@@ -13,6 +13,18 @@ from . import cfg as cfgmod
 from . import norm
 
 
+def _target_names(t, out):
+    """Names re-bound by an assignment target (attribute/subscript stores do
+    not re-bind the base name)."""
+    if isinstance(t, ast.Name):
+        out.add(t.id)
+    elif isinstance(t, (ast.Tuple, ast.List)):
+        for e in t.elts:
+            _target_names(e, out)
+    elif isinstance(t, ast.Starred):
+        _target_names(t.value, out)
+
+
 def _bound_names(node):
     """Names (re)bound by a CFG node."""
     a = node.ast
@@ -33,9 +45,7 @@ def _bound_names(node):
         elif isinstance(a, (ast.FunctionDef, ast.ClassDef)):
             out.add(a.name)
         for t in targets:
-            for n in ast.walk(t):
-                if isinstance(n, ast.Name):
-                    out.add(n.id)
+            _target_names(t, out)
     if node.kind == "with_enter":
         for i in a.items:
             if i.optional_vars is not None:
